@@ -85,6 +85,29 @@ func (p c06) Gen(r *simhook.Rand, tier string, idx int) harness.Scenario {
 			ts.Env.InitHosts = []int{}
 		}
 	}
+	if r.Chance(1, 10) {
+		// class "lc-after-dial-failures": least-connection over two backends, arrivals strictly one after the other with
+		// the random source fed from the scenario, so both samples of every pick are known. Phase 1: one backend refuses
+		// connections while short connections come and go; phase 2: it is back and long-lived connections arrive.
+		// Every pick must be what least-connection prescribes for the true connection counts of its two samples.
+		ts = &TCPScenario{Meta: harness.GenMeta(r, 0)}
+		ts.Class = "lc-after-dial-failures"
+		ts.SlackMs, ts.Dense, ts.Strategy = 0, false, "uniform"
+		ts.Env = world.TCPCfg{Backends: 2, Policy: 1}
+		down := r.Intn(2)
+		ts.Faults = []TCPFault{{Kind: "backend-down", Node: down, AfterStart: 1}, {Kind: "backend-up", Node: down, AtMs: 5000}}
+		n1, n2 := 3+r.Intn(6), 6+r.Intn(8)
+		for i := 0; i < n1; i++ {
+			ts.Conns = append(ts.Conns, TCPConn{Name: fmt.Sprintf("s%d", i), C2S: StreamSpec{Len: 1}, S2C: StreamSpec{Len: 1}, AfterMs: 200 + i*500})
+		}
+		for i := 0; i < n2; i++ {
+			ts.Conns = append(ts.Conns, TCPConn{Name: fmt.Sprintf("l%d", i), C2S: StreamSpec{Len: 1, Finish: "none"}, S2C: StreamSpec{Len: 1, Finish: "none"}, AfterMs: 8000 + i*1000})
+		}
+		for i := 0; i < 2*(n1+n2)+4; i++ {
+			ts.RandSeq = append(ts.RandSeq, r.Intn(1000))
+		}
+		return &C06Scenario{Kind: "e2e", T: ts}
+	}
 	nconn := 1 + r.Intn(8)
 	for i := 0; i < nconn; i++ {
 		c := TCPConn{Name: fmt.Sprintf("c%d", i), C2S: StreamSpec{Len: r.Intn(300)}, S2C: StreamSpec{Len: r.Intn(300)}, After: r.Intn(150)}
@@ -272,7 +295,71 @@ func usable(members map[int]bool, backupFrom int) map[int]bool {
 	return backup
 }
 
+// runLC: class "lc-after-dial-failures" (see Gen).
+func (p c06) runLC(t *testing.T, ts *TCPScenario) harness.Outcome {
+	w := newTCPWorld(ts)
+	var draws []int
+	pos := 0
+	proc.VerifSetLBRandInt(func() int {
+		v := ts.RandSeq[pos%len(ts.RandSeq)]
+		pos++
+		draws = append(draws, v)
+		return v
+	})
+	defer proc.VerifSetLBRandInt(nil)
+	judged := 0
+	w.fin = func(w *tcpWorld) *simrt.Violation {
+		if len(w.clients) != len(ts.Conns) {
+			return nil
+		}
+		if len(ts.Faults) != 2 || ts.Faults[0].Kind != "backend-down" || ts.Faults[1].Kind != "backend-up" || !w.fired[0] || !w.fired[1] {
+			return nil // not the history this class is about (a shrunk scenario may have lost a fault)
+		}
+		// arrivals are strictly sequential: the i-th connection made the i-th pick with draws 2i and 2i+1
+		if len(draws) != 2*len(ts.Conns) {
+			return nil // a pick was repeated or skipped: not the history this oracle reasons about
+		}
+		down := ts.Faults[0].Node
+		counts := []int{0, 0} // true numbers of established long-lived connections per backend
+		for i, cl := range w.clients {
+			s1, s2 := draws[2*i]%2, draws[2*i+1]%2
+			want := s2
+			if counts[s1] < counts[s2] {
+				want = s1
+			}
+			long := ts.Conns[i].C2S.Finish == "none"
+			got := -1
+			if cl.other != nil {
+				fmt.Sscanf(cl.other.header, "B%03d.", &got)
+			}
+			if !long {
+				// phase 1: a pick of the refusing backend ends in a closed connection, any other is relayed
+				if want == down {
+					if got >= 0 {
+						return &simrt.Violation{Clause: "least-connection-picks-less-busy-sample", Detail: fmt.Sprintf("connection %s: samples %d and %d with %v connections: least-connection picks backend %d (which refuses connections), the connection was relayed to backend %d", cl.name, s1, s2, counts, want, got)}
+					}
+				} else if got != want {
+					return &simrt.Violation{Clause: "least-connection-picks-less-busy-sample", Detail: fmt.Sprintf("connection %s: samples %d and %d with %v connections: least-connection picks backend %d, the connection went to %d", cl.name, s1, s2, counts, want, got)}
+				}
+				continue
+			}
+			judged++
+			if got != want {
+				return &simrt.Violation{Clause: "least-connection-picks-less-busy-sample", Detail: fmt.Sprintf("connection %s (long-lived, arrived after backend %d had refused connections for a while and recovered): its pick sampled backends %d and %d, which carry %d and %d established connections; least-connection prescribes backend %d, the connection was relayed to backend %d", cl.name, down, s1, s2, counts[s1], counts[s2], want, got)}
+			}
+			counts[got]++
+		}
+		return nil
+	}
+	out := runTCP(t, ts, w)
+	out.Nontrivial = judged >= 4
+	return out
+}
+
 func (p c06) runE2E(t *testing.T, sc *C06Scenario) harness.Outcome {
+	if sc.T.Class == "lc-after-dial-failures" {
+		return p.runLC(t, sc.T)
+	}
 	ts := sc.T
 	w := newTCPWorld(ts)
 	var bad *simrt.Violation
@@ -405,6 +492,17 @@ func (p c06) runE2E(t *testing.T, sc *C06Scenario) harness.Outcome {
 func (p c06) Shrink(s harness.Scenario) []harness.Scenario {
 	sc := s.(*C06Scenario)
 	var out []harness.Scenario
+	if sc.T != nil && sc.T.Class == "lc-after-dial-failures" {
+		// the oracle relies on the shape of the scenario (strictly sequential arrivals, two phases): only drop
+		// long-lived connections from the end
+		n := len(sc.T.Conns)
+		if n > 0 && sc.T.Conns[n-1].C2S.Finish == "none" {
+			c := cloneTCP(sc.T)
+			c.Conns = c.Conns[:n-1]
+			out = append(out, &C06Scenario{Kind: "e2e", T: c})
+		}
+		return out
+	}
 	if sc.Kind == "policy" {
 		if sc.Tasks > 1 {
 			c := *sc
